@@ -51,6 +51,7 @@ type FuncContract struct {
 	External    bool // from a .contracts file (assumed, trusted)
 	// Implementing: template contract "Type.*", expanded to every method of this interface
 	Implementing string
+	Asserts      []AtAssert
 }
 
 type SpecFunc struct {
@@ -90,7 +91,25 @@ type Lemma struct {
 	Line    int
 }
 
+// Guard: fields of a struct that may only be accessed while the struct's lock field is held
+// (`guarded T.f, T.g by T.mu`).
+type Guard struct {
+	PkgPath string
+	Type    string
+	Fields  []string
+	Lock    string
+}
+
+// AtAssert: an assertion at the first effectful instruction of a source line containing Text.
+type AtAssert struct {
+	Text  string
+	Label string
+	E     Expr
+	Src   string
+}
+
 type Contracts struct {
+	Guards    []Guard
 	Funcs     map[string]*FuncContract // key: pkgpath + "." + name
 	SpecFuncs map[string]*SpecFunc     // key: name (global namespace)
 	Axioms    []*Axiom
@@ -123,7 +142,7 @@ var keywords = map[string]bool{
 	"func": true, "spec": true, "axiom": true, "ghost": true, "lemma": true, "package": true,
 	"requires": true, "ensures": true, "let": true, "modifies": true, "nopanic": true, "overflow": true,
 	"loop": true, "invariant": true, "decreases": true, "trusted": true, "props": true, "pure": true,
-	"purefn": true, "maypanic": true, "opt": true, "dispatch": true, "assume": true, "uses": true, "onalloc": true, "recvinv": true, "check": true, "defines": true, "stable": true,
+	"purefn": true, "maypanic": true, "opt": true, "dispatch": true, "assume": true, "uses": true, "onalloc": true, "recvinv": true, "check": true, "defines": true, "stable": true, "guarded": true, "assert": true,
 }
 
 type rawItem struct {
@@ -261,6 +280,30 @@ func (cs *Contracts) LoadFile(path string, pkgPath string, external bool) {
 				curLemma = &Lemma{Name: name, E: e, PkgPath: pkgPath, File: path, Line: it.line}
 				cs.Lemmas = append(cs.Lemmas, curLemma)
 			}
+		case "guarded":
+			// guarded T.f, T.g by T.mu
+			cur, curLoop, curLemma, curAxiom = nil, nil, nil, nil
+			parts := strings.SplitN(it.text, " by ", 2)
+			if len(parts) != 2 {
+				fail(it, "expected 'guarded T.f, T.g by T.mu'")
+				continue
+			}
+			g := Guard{PkgPath: pkgPath}
+			lk := strings.SplitN(strings.TrimSpace(parts[1]), ".", 2)
+			if len(lk) != 2 {
+				fail(it, "expected lock as T.mu")
+				continue
+			}
+			g.Type, g.Lock = lk[0], lk[1]
+			for _, f := range strings.Split(parts[0], ",") {
+				tf := strings.SplitN(strings.TrimSpace(f), ".", 2)
+				if len(tf) != 2 || tf[0] != g.Type {
+					fail(it, "guarded field %q is not a field of %s", f, g.Type)
+					continue
+				}
+				g.Fields = append(g.Fields, tf[1])
+			}
+			cs.Guards = append(cs.Guards, g)
 		case "ghost":
 			cur, curLoop, curLemma, curAxiom = nil, nil, nil, nil
 			f := strings.Fields(it.text)
@@ -348,6 +391,26 @@ func (cs *Contracts) LoadFile(path string, pkgPath string, external bool) {
 						continue
 					}
 					fc.Items = append(fc.Items, Item{Kind: "recvinv", Name: strings.TrimSpace(txt[:j]), E: parse(it, txt[j+1:]), Src: txt, Line: it.line})
+				case "assert":
+					// assert at `source text` [label] formula
+					t := strings.TrimSpace(txt)
+					if !strings.HasPrefix(t, "at `") {
+						fail(it, "expected: assert at `source text` [label] formula")
+						continue
+					}
+					t = t[4:]
+					j := strings.Index(t, "`")
+					if j < 0 {
+						fail(it, "unterminated source text in assert")
+						continue
+					}
+					at := t[:j]
+					rest := strings.TrimSpace(t[j+1:])
+					lab := ""
+					if m := labelRe.FindStringSubmatch(rest); m != nil {
+						lab, rest = m[1], rest[len(m[0]):]
+					}
+					fc.Asserts = append(fc.Asserts, AtAssert{Text: at, Label: lab, E: parse(it, rest), Src: rest})
 				case "check":
 					fc.Items = append(fc.Items, Item{Kind: "check", Label: label, E: parse(it, txt), Src: txt, Line: it.line})
 				case "stable":
